@@ -13,7 +13,8 @@ EXPLANATION = (
     "for particular values, decimal-string parsing via float()."
     " Added after the third round of seeded changes: R8 decimal strings are converted by float()/int() of the text itself (no int(float(x))); the constructor applies mode keywords to the object's final, unshared configuration (C20.R2)."
     ' Added after the fourth round of seeded changes: the wrap clause (C03.R1/R3) for every carrier; C20.R8 objects carry only the documented attributes and no function writes module-level containers (no caches / memos that go stale).'
-    ' Added after the fifth round of seeded changes: both range tests of the overflow handler on every store (C04.R1); C04.R7 nothing inside the package calls reset() and Config.update applies every keyword; C20.R8 also forbids mutable default arguments and private attributes hung on operands (x._cache, x.__dict__[...]).')
+    ' Added after the fifth round of seeded changes: both range tests of the overflow handler on every store (C04.R1); C04.R7 nothing inside the package calls reset() and Config.update applies every keyword; C20.R8 also forbids mutable default arguments and private attributes hung on operands (x._cache, x.__dict__[...]).'
+    ' Added after the sixth round of seeded changes: the wrap clause now also accepts the offset-binary spelling ((x + 2^(n-1)) mod 2^n) - 2^(n-1) and requires the offset to be added after the integer conversion (C03.R1); value types are Python types or dtype instances, never NumPy scalar classes (C10.R5).')
 ASSUMPTIONS = ["NumPy rounding primitives and np.clip behave as in the lemma table",
                "calls through self.<name> resolve to the method of that name on Fxp (no monkey-patching)"]
 TRUSTED = ["CPython ast", "fxlint path enumeration/substitution", "lemma table of NumPy primitives"]
